@@ -517,6 +517,54 @@ def check_cli_cell(cell):
     return fails
 
 
+# ---- stage 8: two tables root directories in one process ------------------------------------------------------------
+def _roots_history(private, order):
+    """in a forked child: table selections under the bundled and under a private tables root, in the given order"""
+    from refbufr import TABLES_ROOT
+    fails = []
+    for which, mv in order:
+        root = private if which == 'private' else None
+        exp = rtables.select(0, 0, 0, mv, 0, root=root or TABLES_ROOT)
+        rt = rtables.Tables(exp[0], exp[1], root=root or TABLES_ROOT)
+        detail = {'tables_root_dir': which, 'master_table_version': mv, 'order': [list(x) for x in order]}
+        o = sut.call(lambda: TableGroupCacheManager.get_table_group(tables_root_dir=root, master_table_version=mv))
+        if not o.ok:
+            fails.append(('selecting tables under a tables root directory raised %s@%s' % (o.exc_type, o.frame), dict(detail, error=o.msg)))
+            continue
+        k = o.value.key
+        got = (tuple(k.wmo_tables_sn), tuple(k.local_tables_sn) if k.local_tables_sn else None)
+        if got != exp:
+            fails.append(('table selection under a tables root directory differs from the fall-back rule applied to that directory',
+                          dict(detail, got=got, expected=exp)))
+            continue
+        for id_ in (12001, 1001):
+            d, e = o.value.B.descriptors.get(id_), rt.B[id_]
+            if d is None or (d.scale, d.refval, d.nbits) != (e.scale, e.ref, e.nbits):
+                fails.append(('Table B attributes are not those of the tables root directory asked for',
+                              dict(detail, id=id_, got=None if d is None else (d.scale, d.refval, d.nbits), expected=(e.scale, e.ref, e.nbits))))
+                break
+        sd = o.value.lookup(301011)
+        if D.flat_member_ids(sd) != [int(x) for x in rt.D[301011][1]]:
+            fails.append(('a Table D sequence is not expanded from the tables root directory asked for',
+                          dict(detail, id=301011, got=D.flat_member_ids(sd), expected=rt.D[301011][1])))
+    return fails
+
+
+ROOT_ORDERS = [
+    [('bundled', 33), ('private', 33), ('bundled', 33), ('private', 77), ('bundled', 77), ('private', 25), ('bundled', 25)],
+    [('private', 33), ('bundled', 33), ('private', 13), ('bundled', 13), ('bundled', 77), ('private', 77)],
+    [('private', 77), ('bundled', 77), ('bundled', 25), ('private', 25), ('private', 33)],
+    [('bundled', 77), ('private', 77), ('private', 40), ('bundled', 40)],
+]
+
+
+def check_roots(k):
+    from vlib import cli, forkexec, privtables
+    with cli.scratch('c14') as d:
+        private = privtables.build(d)
+        return forkexec.run(_roots_history, private, ROOT_ORDERS[k])
+
+
 # ---- stage 4: messages whose template holds a descriptor that is in no table -----------------------------
 class UnknownCase(object):
     def __init__(self, meta, ids, data_bits, shape, unknown, nbits_pad=256):
@@ -802,7 +850,12 @@ def run(tier, seed):
         rep.add_case('cli:%r' % (cell,), True, ['command_line_lookup_and_compile'])
         for clause, detail in fails:
             rep.add_failure('command line: ' + clause, detail, {'kind': 'cli', 'cell': list(cell)}, stage='command line')
-    rep.required_classes = ['after_in_stream_definitions', 'command_line_lookup_and_compile', 'list_nesting_4', 'list_with_undefined_id', 'list_X_ge_40', 'unknown_in_221', 'unknown_fixed_rep',
+    # stage 8
+    for k, fails in enumerate(runner.run_enumerated(list(range(len(ROOT_ORDERS))), check_roots, min(workers, 4), chunk=1)):
+        rep.add_case('roots:%d' % k, True, ['two_tables_root_directories'])
+        for clause, detail in fails:
+            rep.add_failure('tables root: ' + clause, detail, {'kind': 'roots', 'order': k}, stage='tables root directories')
+    rep.required_classes = ['after_in_stream_definitions', 'command_line_lookup_and_compile', 'two_tables_root_directories', 'list_nesting_4', 'list_with_undefined_id', 'list_X_ge_40', 'unknown_in_221', 'unknown_fixed_rep',
                             'unknown_delayed_rep', 'unknown_after_rep', 'unknown_nested_rep', 'unknown_sequence', 'unknown_replication_factor',
                             'selection_cell', 'table_d_entries']
     fuzz.run_structured(rep, 'checks.c14', gen_list, tier, funcname='fuzz_list', tag='lists')
@@ -814,8 +867,10 @@ def replay(path):
     with open(path) as f:
         d = json.load(f)
     c = d['case']
-    if c.get('kind') in ('tables', 'selection', 'sequence_templates', 'cli'):
-        if c['kind'] == 'cli':
+    if c.get('kind') in ('tables', 'selection', 'sequence_templates', 'cli', 'roots'):
+        if c['kind'] == 'roots':
+            fails = check_roots(c['order'])
+        elif c['kind'] == 'cli':
             fails = check_cli_cell(tuple(c['cell']))
         elif c['kind'] == 'sequence_templates':
             fails = check_sequences_extra(tuple(c['sel']))['fails']
